@@ -249,7 +249,7 @@ def build_funcs(case, log=None, fault=None, tag=None, cache=None, extra=None):
         if f["internal_shape"] and f.get("ishape_via") == "both":
             # declared on the PipeFunc with ANOTHER shape; the value passed to map(internal_shapes=...) is documented to win
             kw["internal_shape"] = tuple((d - 1 if d >= 2 else d + 1) for d in f["internal_shape"])
-        elif f["internal_shape"] and f.get("ishape_via") != "map":
+        elif f["internal_shape"] and f.get("ishape_via") not in ("map", "plain"):
             kw["internal_shape"] = tuple(f["internal_shape"])
         if cache and f["name"] in cache:
             kw["cache"] = True
@@ -262,6 +262,19 @@ def build_funcs(case, log=None, fault=None, tag=None, cache=None, extra=None):
         outn = tuple(f["outs"]) if len(f["outs"]) > 1 else f["outs"][0]
         out.append(PipeFunc(fn, outn, mapspec=f["mapspec"], **kw))
     return out
+
+
+def with_plain_arrays(case, rng, p=0.5):
+    """A copy of the case in which functions WITHOUT MapSpec whose single output no MapSpec indexes return a plain ndarray
+    (rank 1-3) instead of a string: just a value for pipefunc (ishape_via='plain': nobody is told a shape)."""
+    indexed = {q for f in case["funcs"] if f["mapspec"] for q, m in f["modes"].items() if isinstance(m, list)}
+    funcs = []
+    for f in case["funcs"]:
+        if f["mapspec"] is None and len(f["outs"]) == 1 and not f["internal_shape"] and f["outs"][0] not in indexed and not f.get("autogen") \
+                and rng.random() < p:
+            f = {**f, "internal_shape": rng.choice([[2], [3], [2, 3], [2, 2], [2, 1, 2]]), "ishape_via": "plain", "ret_list": False}
+        funcs.append(f)
+    return {**case, "funcs": funcs}
 
 
 def internal_shapes_arg(case):
